@@ -16,4 +16,9 @@ CHECKS = {
   "Every forest of scope-relevant items (probes, four kinds of <var> assignment, <g>/<reuse> attribute scopes, loop, if, forward references, forward templates) with at most 4 (thorough: 5) nodes is rendered, executed and every probe value compared with a 60-line reference interpreter of the stated scoping rules; since forward references are items, every placement of a re-evaluation relative to scopes/assignments/probes within the bound is explored, and the scope/element/depth stacks are probed after every successful transform.",
   "Trusted: the reference interpreter; loop/if modelled as transparent; programs that store an unresolved $reference into a variable are executed but not compared (their value depends on evaluation count, C14); violations inside the structurally defined deferred-side-effect class are attributed to the open finding.",
   "DESIGN.md §4 C15"),
+ "C03": ("exploration",
+  "bounded-exhaustive XML generation (elements x attribute atoms x content sequences x prolog forms x 16 configurations) with an independent strict XML reader as infoset oracle",
+  "All documents of a small XML grammar rooted at a namespaced <svg> (svgdx-looking and hostile attributes, entity/character references, unicode, comments, CDATA, PIs, doctype, declaration) and all such subtrees embedded at 5 positions of svgdx documents are run through the real transform under every configuration that could leak; an independent strict XML reader must yield the same canonical event stream for input and output.",
+  "Trusted: the strict reader (xmlref; unit-tested, no code shared with quick-xml); no DTD processing; literal white space in attribute values normalised on both sides.",
+  "DESIGN.md §4 C03"),
 }
